@@ -240,7 +240,7 @@ func decodeCalendarDataReq(calendarData *calendarDataReq) (*CalendarCompRequest,
 func decodePropCalendarDataReq(prop *internal.Prop) (*CalendarCompRequest, error) {
 	var calendarData calendarDataReq
 	if err := prop.Decode(&calendarData); err != nil && !internal.IsNotFound(err) {
-		return nil, err
+		return nil, &internal.HTTPError{Code: http.StatusBadRequest, Err: err}
 	}
 	return decodeCalendarDataReq(&calendarData)
 }
